@@ -62,6 +62,9 @@ class WireCore(object):
         self.foreign_i = 0
         self.timeouts_seen = []     # timeout argument of every call
         self.connect_count = 0
+        self.corrupted = None
+        self.corrupt_seen = 0
+        self.pub_offered_at = []    # call indexes of the header write of AUTH(RSAPUBLICKEY)
 
     # ------------------------------------------------------------------ bookkeeping
     def _begin(self, kind, n, timeout):
@@ -74,7 +77,7 @@ class WireCore(object):
 
     def _log(self, kind, n, timeout, outcome):
         if self.log_calls:
-            self.calls.append((kind, n, timeout, outcome))
+            self.calls.append((kind, n, timeout, outcome, self.ncalls - 1))
 
     def _timeout_exc(self, what, timeout):
         return L.exceptions.TcpTimeoutException("%s timed out (%s s) [mem]" % (what, timeout))
@@ -136,6 +139,8 @@ class WireCore(object):
             self.bytes_written += k
             self._log("w", len(data), timeout, "partial+BrokenPipeError")
             raise BrokenPipeError("[mem] injected after partial write")
+        if len(data) == wire.HEADER_SIZE and data[:4] == b"AUTH" and data[4:8] == b"\x03\x00\x00\x00":
+            self.pub_offered_at.append(idx)
         cap = 0
         if self.wcap:
             cap = self.wcap[self.wcap_i % len(self.wcap)]
@@ -225,7 +230,7 @@ class WireCore(object):
             if nxt is None:
                 return self._nothing(n, timeout, idx)
             pkt, s = nxt
-            self.cur = [bytearray(wire.encode(pkt.cmd, pkt.arg0, pkt.arg1, pkt.data)), pkt, s, self.delivered_packets]
+            self._load(pkt, s)
 
         v = self.frag.draw(65536)
         if v == EMPTY_READ and self.empty_run < 3:
@@ -235,6 +240,34 @@ class WireCore(object):
             return b""
         self.empty_run = 0
         return self._deliver(n, timeout, v if v and v != EMPTY_READ else None)
+
+    def _load(self, pkt, s):
+        """Put a device packet on the wire (applying the corruption plan, C03)."""
+        raw = bytearray(wire.encode(pkt.cmd, pkt.arg0, pkt.arg1, pkt.data))
+        c = self.cfg.get("corrupt")
+        if c is not None and self.corrupted is None:
+            eligible = bool(pkt.data) if c["mode"] in ("byte", "bit", "hdr") else True
+            if eligible:
+                if self.corrupt_seen == c["k"]:
+                    if c["mode"] == "byte":
+                        i = 24 + c["pos"] % len(pkt.data)
+                        raw[i] ^= (c["val"] % 255) + 1
+                    elif c["mode"] == "bit":
+                        i = 24 + c["pos"] % len(pkt.data)
+                        raw[i] ^= 1 << (c["val"] % 8)
+                    elif c["mode"] == "hdr":
+                        i = 16 + c["pos"] % 4
+                        raw[i] ^= (c["val"] % 255) + 1
+                    elif c["mode"] == "cmd":
+                        word = c["val"] & 0xFFFFFFFF
+                        if word in wire.CMD_NAMES:
+                            word ^= 0x20202020
+                        raw[0:4] = word.to_bytes(4, "little")
+                        if c.get("fix_magic"):
+                            raw[20:24] = (word ^ 0xFFFFFFFF).to_bytes(4, "little")
+                    self.corrupted = {"packet": pkt, "payload": bytes(raw[24:]), "t": self.clock.time(), "ordinal": self.delivered_packets}
+                self.corrupt_seen += 1
+        self.cur = [raw, pkt, s, self.delivered_packets]
 
     def _deliver(self, n, timeout, limit):
         buf, pkt, s, _ = self.cur
